@@ -17,6 +17,12 @@
 (*                                  the value to 16 digits); the re-parse      *)
 (*                                  gives t (numbers equal to 16 digits) and   *)
 (*                                  the second round reproduces it exactly     *)
+(* Build{ops,t,got}             an object built through operator[]: exactly the  *)
+(*                              distinct keys, each with its last value, each  *)
+(*                              retrievable (keys with embedded NUL, bytes >=  *)
+(*                              0x80, prefixes of each other, long keys ...)   *)
+(* Parse{..,look,lookobj}       every member of the parsed object retrievable  *)
+(*                              by its own key with its own value              *)
 (* Get{ty,n,ok,v}               (e) ok => v = n exactly (float: when n is a    *)
 (*                                  float), never ok for inf / nan / non-      *)
 (*                                  numbers                                     *)
@@ -24,7 +30,8 @@
 (* model (ImplTokens + Parse): informational, never a violation.               *)
 EXTENDS JsonParse, TraceBase
 
-CONSTANTS ShortLimit     \* documents up to this many bytes are tokenised and parsed in TLA+
+CONSTANTS ShortLimit,    \* documents up to this many bytes are tokenised and parsed in TLA+
+          KeysLimit      \* the same for the adversarial-key documents of the driver (long keys)
 
 VARIABLE l
 tvars == <<pvars, l>>
@@ -116,7 +123,26 @@ AllPlainOrAny(ts) == \A j \in 1..Len(ts) : ts[j].t = "num" => LET p == NumCanon(
 ---------------------------------------------------------------------------
 TReset == Is("Reset") /\ Keep
 
-Short == Len(Ev.b) <= ShortLimit /\ Ev.cls = "short"
+\* documents re-parsed in TLA+: the ordinary ones up to ShortLimit bytes, the adversarial-key documents (long keys) up to KeysLimit
+Short == (Ev.cls = "short" /\ Len(Ev.b) <= ShortLimit) \/ (Ev.cls = "keys" /\ Len(Ev.b) <= KeysLimit)
+
+\* members in the order the implementation iterates / prints them: the design (JsonRef!Norm, std::map<string_key>) says
+\* strictly increasing byte-wise (unsigned).  The property only needs the keys to be distinct, so a different order is drift.
+RECURSIVE Ordered(_)
+Ordered(t) == CASE t.k = "arr" -> \A i \in 1..Len(t.a) : Ordered(t.a[i])
+                [] t.k = "obj" -> /\ \A i \in 1..(Len(t.m) - 1) : BytesLess(t.m[i].key, t.m[i + 1].key)
+                                  /\ \A i \in 1..Len(t.m) : Ordered(t.m[i].v)
+                [] OTHER -> TRUE
+
+\* every member of the object the driver looked into is retrievable by its own key with its own value, and nothing else is there:
+\* look = <<[key, found, v]>> (one per key of the generated document), lookobj = that object as iterated
+LookVerdict ==
+    IF ~Has(Ev, "look") THEN OKV
+    ELSE IF Len(Ev.lookobj.m) # Len(Ev.look) THEN <<"incomplete", "member-count">>
+    ELSE IF \E i \in 1..Len(Ev.look) : ~Ev.look[i].found THEN <<"incomplete", "member-not-retrievable">>
+    ELSE IF \E i \in 1..Len(Ev.look) : ~(\E j \in 1..Len(Ev.lookobj.m) : Ev.lookobj.m[j].key = Ev.look[i].key /\ Ev.lookobj.m[j].v = Ev.look[i].v)
+         THEN <<"incomplete", "member-retrieved-other-value">>
+    ELSE OKV
 
 ParseVerdict ==
     LET s == IF Ev.ok THEN SoundVerdict(Ev.t1) ELSE OKV
@@ -130,9 +156,11 @@ ParseVerdict ==
             IN IF must /\ ~Ev.ok THEN <<"incomplete", "rejected-rfc-document">>
                ELSE IF must /\ ~Denotes(Ev.t1, r.tree, "s") THEN <<"incomplete", "different-tree">>
                ELSE IF must /\ Ev.api = "range" /\ Ev.full /\ Ev.used # Len(Ev.b) THEN <<"incomplete", "range-not-consumed">>
+               ELSE IF must /\ LookVerdict # OKV THEN LookVerdict
                ELSE LET its == ImplTokens(Ev.b)
                         m == Parse(its, Ev.full)
                     IN IF AllPlainOrAny(its) /\ m.ok # Ev.ok THEN <<"drift-acceptance", IF Ev.ok THEN "code-accepts" ELSE "code-rejects">>
+                       ELSE IF Ev.ok /\ ~Ordered(Ev.t1) THEN <<"drift-member-order", "parsed">>
                        ELSE OKV
 
 TParse == Is("Parse") /\ Judge(ParseVerdict) /\ Keep
@@ -162,13 +190,32 @@ PrintVerdict ==
     ELSE IF ~Ev.ok2 THEN <<"roundtrip", "reparse-failed">>
     ELSE IF ~SameTree(Ev.t, Ev.t2, "p") THEN <<"roundtrip", "differs-" \o Ev.mode \o "-" \o Ev.loc>>
     ELSE IF ~Ev.ok3 \/ ~SameTree(Ev.t2, Ev.t3, "n") THEN <<"roundtrip", "second-round-" \o Ev.mode \o "-" \o Ev.loc>>
-    ELSE IF Len(Ev.b) > ShortLimit \/ Ev.cls # "short" THEN OKV
+    ELSE IF ~Short THEN OKV
     ELSE LET ts == RefTokens(Ev.b)
              r == RefDoc(ts, FALSE)
          IN IF HasErr(ts) \/ ~r.ok THEN <<"roundtrip", "not-rfc8259-" \o Ev.mode \o "-" \o Ev.loc>>
             ELSE IF ~Denotes(Ev.t, r.tree, "p") THEN <<"roundtrip", "text-denotes-other-" \o Ev.mode \o "-" \o Ev.loc>>
+            ELSE IF ~Ordered(Ev.t) THEN <<"drift-member-order", "printed">>
             ELSE OKV
 TPrint == Is("Print") /\ Judge(PrintVerdict) /\ Keep
+
+\* a tree built through the API: ops = <<[key, v]>> assignments  obj[key] = v  in order (keys may repeat: the last one wins);
+\* the object must hold exactly the distinct keys, each with its last value, and got[i] = what obj[key_i] returns afterwards
+LastFor(ops, key) == LET S == { i \in 1..Len(ops) : ops[i].key = key } IN ops[CHOOSE i \in S : \A j \in S : j <= i].v
+IntOf(t) == IF t.k = "num" THEN t.s ELSE <<>>
+RECURSIVE IntText(_)
+IntText(n) == IF n < 10 THEN <<48 + n>> ELSE Append(IntText(n \div 10), 48 + (n % 10))
+BuildVerdict ==
+    LET ops == Ev.ops
+        dk == { ops[i].key : i \in 1..Len(ops) }
+        t == Ev.t
+    IN IF t.k # "obj" THEN <<"build", "not-an-object">>
+       ELSE IF Len(t.m) # Cardinality(dk) \/ ~UniqueKeys(t) THEN <<"build", "member-count">>
+       ELSE IF \E k \in dk : ~(\E j \in 1..Len(t.m) : t.m[j].key = k /\ IntOf(t.m[j].v) = IntText(LastFor(ops, k))) THEN <<"build", "member-value">>
+       ELSE IF \E i \in 1..Len(ops) : Ev.got[i] # LastFor(ops, ops[i].key) THEN <<"build", "member-retrieval">>
+       ELSE IF ~Ordered(t) THEN <<"drift-member-order", "built">>
+       ELSE OKV
+TBuild == Is("Build") /\ Judge(BuildVerdict) /\ Keep
 
 GetVerdict ==
     IF ~Ev.ok THEN OKV
@@ -182,6 +229,6 @@ TGet == Is("Get") /\ Judge(GetVerdict) /\ Keep
 TDied == Is("Died") /\ Flag("died", Ev.why) /\ Keep
 
 TraceInit == mode = "trace" /\ hist = <<>> /\ cfg = InitCfg /\ full = TRUE /\ fin = FALSE /\ target = Sentinel /\ tree = Undef /\ l = 1
-TraceNext == TReset \/ TParse \/ TNest \/ TPrint \/ TGet \/ TDied
+TraceNext == TReset \/ TParse \/ TNest \/ TPrint \/ TBuild \/ TGet \/ TDied
 TraceSpec == TraceInit /\ [][TraceNext]_tvars
 =============================================================================
